@@ -10,6 +10,7 @@ import (
 	"os"
 	"path/filepath"
 	"runtime"
+	"runtime/pprof"
 	"sort"
 	"strings"
 	"sync"
@@ -116,6 +117,7 @@ type pathResult struct {
 	Steps     int64       `json:"steps"`
 	newWork   [][]int
 	funcs     map[*ssa.Function]int
+	hasModel  bool
 }
 
 type siteStat struct {
@@ -151,7 +153,7 @@ type runResult struct {
 }
 
 // runPath executes the entry function once along prefix.
-func runPath(p *program, cfg *Config, sv *solver, entry *ssa.Function, prefix []int) (res *pathResult) {
+func runPath(p *program, cfg *Config, sv *solver, entry *ssa.Function, prefix []int, wantModel bool) (res *pathResult) {
 	ex := &executor{cfg: cfg, sv: sv, prefix: prefix}
 	i := &interpreter{
 		prog:     p.prog,
@@ -162,14 +164,6 @@ func runPath(p *program, cfg *Config, sv *solver, entry *ssa.Function, prefix []
 	}
 	if rt := p.prog.ImportedPackage("runtime"); rt != nil {
 		i.runtimeErrorString = rt.Type("errorString").Object().Type()
-	}
-	for _, pkg := range p.prog.AllPackages() {
-		for _, m := range pkg.Members {
-			if g, ok := m.(*ssa.Global); ok {
-				cell := zero(mustDeref(g.Type()))
-				i.globals[g] = &cell
-			}
-		}
 	}
 	sv.reset()
 	res = &pathResult{Prefix: prefix}
@@ -218,7 +212,10 @@ func runPath(p *program, cfg *Config, sv *solver, entry *ssa.Function, prefix []
 			return
 		}
 		// model for replay: evaluate every event and symbolic output under one model of the PC
-		finalizeModel(ex, res)
+		if wantModel {
+			finalizeModel(ex, res)
+			res.hasModel = true
+		}
 	}()
 	// yardl package initialisers (concrete)
 	if init := entry.Pkg.Func("init"); init != nil {
@@ -353,9 +350,10 @@ func explore(p *program, cfg *Config, entry *ssa.Function) (*runResult, error) {
 				pre := work[len(work)-1]
 				work = work[:len(work)-1]
 				inflight++
+				wantModel := len(rr.ReplayPaths) < cfg.SampleReplays || len(rr.Samples) < 5
 				mu.Unlock()
 
-				res := runPath(p, cfg, sv, entry, pre)
+				res := runPath(p, cfg, sv, entry, pre, wantModel)
 
 				mu.Lock()
 				inflight--
@@ -402,10 +400,10 @@ func explore(p *program, cfg *Config, entry *ssa.Function) (*runResult, error) {
 				if violated && len(rr.Violations) < 200 {
 					rr.Violations = append(rr.Violations, res)
 				}
-				if len(rr.Samples) < 5 && (res.Outcome == "return" || res.Outcome == "panic") {
+				if len(rr.Samples) < 5 && res.hasModel && (res.Outcome == "return" || res.Outcome == "panic") {
 					rr.Samples = append(rr.Samples, res)
 				}
-				if (res.Outcome == "return" || res.Outcome == "panic" || res.Outcome == "exit") && len(rr.ReplayPaths) < cfg.SampleReplays {
+				if res.hasModel && (res.Outcome == "return" || res.Outcome == "panic" || res.Outcome == "exit") && len(rr.ReplayPaths) < cfg.SampleReplays {
 					rr.ReplayPaths = append(rr.ReplayPaths, res)
 				}
 				if cfg.Verbose {
@@ -471,6 +469,7 @@ func Main(argv []string) error {
 	fs.StringVar(&cfg.DumpQueries, "dump", "", "dump worker 0's solver dialogue to this file")
 	fs.BoolVar(&cfg.Verbose, "v", false, "verbose")
 	census := fs.Bool("census", false, "list foreign callees of yardl code and exit")
+	cpuprof := fs.String("cpuprofile", "", "write a CPU profile")
 	if err := fs.Parse(argv); err != nil {
 		return err
 	}
@@ -499,6 +498,11 @@ func Main(argv []string) error {
 	entry := pkg.Func(cfg.Entry[dot+1:])
 	if entry == nil {
 		return fmt.Errorf("function %s not found", cfg.Entry)
+	}
+	if *cpuprof != "" {
+		f, _ := os.Create(*cpuprof)
+		pprof.StartCPUProfile(f)
+		defer pprof.StopCPUProfile()
 	}
 	rr, err := explore(p, cfg, entry)
 	if err != nil {
